@@ -155,6 +155,58 @@ def check(ctx):
     ok = b3 is not None and any(pmatch("len(__) == _S.nrow", a.test, env) is not None for a in asserts)
     ctx.ob("MPT-3", ag, "assert len(column) == stat.nrow", asserts[0] if asserts else ag.node, ok,
            "one summary value per group" if ok else "no check that a helper returned one value per group", nontrivial=False)
+    # every (name, function) pair yields a column, whichever way the function is called
+    loops = [n for n in body_nodes(ag.node) if isinstance(n, ast.For) and ag.kwarg and pmatch(f"{ag.kwarg}.items()", n.iter) is not None]
+    ctx.count("loops over the (name, function) pairs in aggregate", len(loops), 1)
+    for lp in loops:
+        names = [e.id for e in lp.target.elts] if isinstance(lp.target, ast.Tuple) and all(isinstance(e, ast.Name) for e in lp.target.elts) else []
+        CN = names[0] if names else "colname"
+        FN = names[1] if len(names) > 1 else "function"
+
+        def stores(st):
+            return isinstance(st, ast.Assign) and any(isinstance(t, ast.Subscript) and isinstance(t.slice, ast.Name) and t.slice.id == CN
+                                                      for t in st.targets)
+
+        def always(stmts):
+            for st in stmts:
+                if stores(st):
+                    return True
+                if isinstance(st, ast.If) and st.orelse and always(st.body) and always(st.orelse):
+                    return True
+                if isinstance(st, (ast.With, ast.Try)) and always(st.body):
+                    return True
+            return False
+        ok = always(lp.body)
+        ctx.ob("MPT-3", ag, f"every path through the loop stores stat[{CN}]", lp, ok,
+               "each requested summary column is stored, for group-aware helpers and for arbitrary functions alike" if ok else
+               f"a path through the loop over the (name, function) pairs stores no column for {CN}: that summary silently disappears "
+               f"from the result", clause="one summary row per distinct key with every requested summary")
+        # functions without the mark are NOT group-aware
+        for g in [c for _, c in calls_in(ag) if isinstance(c.func, ast.Name) and c.func.id == "getattr" and len(c.args) >= 2
+                  and isinstance(c.args[1], ast.Constant) and c.args[1].value == "group_aware"]:
+            okg = len(g.args) == 3 and isinstance(g.args[2], ast.Constant) and g.args[2].value is False
+            ctx.ob("MPT-3", ag, text(g), g, okg, "an unmarked function is called once per group with that group's rows" if okg else
+                   "a function without the group_aware mark is treated as group-aware: a lambda would receive the whole frame once "
+                   "instead of each group's rows", clause="a shorthand helper yields the same summary as a lambda")
+        # the per-group frames handed to arbitrary functions: built once, under `X is None`, before they are iterated
+        for comp in [n for b in lp.body for n in ast.walk(b) if isinstance(n, (ast.ListComp, ast.GeneratorExp))
+                     and any(isinstance(c, ast.Call) and isinstance(c.func, ast.Name) and c.func.id == FN for c in ast.walk(n.elt))]:
+            it = comp.generators[0].iter
+            if not isinstance(it, ast.Name):
+                continue
+            from ..dataflow import defs_reaching as _dr
+            ds = _dr(ag, it.id, comp)
+            lazy = [d for d in ds if d.value is not None and not (isinstance(d.value, ast.Constant) and d.value.value is None)]
+            none_defs = [d for d in ds if d.value is not None and isinstance(d.value, ast.Constant) and d.value.value is None]
+            okl = bool(lazy)
+            if none_defs:
+                # the None placeholder may only survive to here if the refill is exactly under `X is None`
+                okl = okl and all(any(k == "T" and t == f"{it.id} is None" for k, t in facts_at(ag, d.node.ast)) for d in lazy) \
+                    and _refill_dominates(ag, it.id, comp)
+            ctx.ob("MPT-3", ag, f"{text(comp)[:70]}: {it.id} is filled before it is iterated", comp, okl,
+                   "the per-group frames exist whenever an arbitrary function is applied" if okl else
+                   f"{it.id} can still be its None placeholder (or is rebuilt under the wrong condition) when the arbitrary function is "
+                   f"applied per group", clause="a shorthand helper yields the same summary as a lambda")
     # ---------------------------------------------------------------- split
     P = sp.params[0]
     BY = sp.vararg
@@ -295,3 +347,20 @@ def _loop_of(fn, node):
             return p
         p = fn.module.parent.get(p)
     return None
+
+
+def _refill_dominates(fn, name, use):
+    """An `if NAME is None: NAME = ...` statement precedes ``use`` in the same block (so NAME is not None at the use)."""
+    par = fn.module.parent
+    node = use
+    while node is not None and not isinstance(node, ast.stmt):
+        node = par.get(node)
+    blk_owner = par.get(node)
+    for field in ("body", "orelse", "finalbody"):
+        blk = getattr(blk_owner, field, None)
+        if isinstance(blk, list) and node in blk:
+            for st in blk[:blk.index(node)]:
+                if isinstance(st, ast.If) and pmatch(f"{name} is None", st.test) is not None and not st.orelse \
+                        and any(isinstance(x, ast.Assign) and any(isinstance(t, ast.Name) and t.id == name for t in x.targets) for x in st.body):
+                    return True
+    return False
